@@ -977,7 +977,8 @@ def fmt_parts(fn, e, keep=()):
                         return None
                     if idx >= len(x.args):
                         return None
-                    out.append(("expr", canon_ast(x.args[idx])))
+                    sub_ = rec(x.args[idx])  # a literal, str(e) or nested format contributes its own parts
+                    out += sub_ if sub_ is not None else [("expr", canon_ast(x.args[idx]))]
             except ValueError:
                 return None
             return out
@@ -991,7 +992,8 @@ def fmt_parts(fn, e, keep=()):
                 if pz:
                     out.append(pz.replace("%%", "%"))
                 if i < len(args):
-                    out.append(("expr", canon_ast(args[i])))
+                    sub_ = rec(args[i])
+                    out += sub_ if sub_ is not None else [("expr", canon_ast(args[i]))]
             return out
         if isinstance(x, ast.Call) and isinstance(x.func, ast.Name) and x.func.id == "str" and len(x.args) == 1 and not x.keywords:
             return [("expr", canon_ast(x.args[0]))]
